@@ -237,6 +237,16 @@ theorem filterM_adjoint_aux {τ : Type} [Fintype τ] (n M : ℕ) (P F : ℕ → 
   refine Finset.sum_congr rfl fun r _ => Finset.sum_congr rfl fun q _ =>
     Finset.sum_congr rfl fun i _ => by ring
 
+/-- the input weight of a consistent pair with non-negative output weight is non-negative -/
+theorem wr_nonneg (g : Cfg ℝ ℂ) (wr wo : ℝ) (hgw : g.w = (wr : ℂ))
+    (hw : (wo : ℂ) * (g.M : ℂ) * g.w = 1) (hwo : 0 ≤ wo) : 0 ≤ wr := by
+  rw [hgw] at hw
+  have h : wo * (g.M : ℝ) * wr = 1 := by exact_mod_cast hw
+  by_contra hneg
+  have h1 : wo * (g.M : ℝ) * wr ≤ 0 :=
+    mul_nonpos_of_nonneg_of_nonpos (mul_nonneg hwo (Nat.cast_nonneg _)) (le_of_lt (not_le.mp hneg))
+  linarith
+
 /-! ## 5. The executable matrix filter (`Model/FilterM.lean`, run by the driver) is `filterM` -/
 
 theorem fmAnalysisX_eq (n M : ℕ) (P F : ℕ → ℕ → ℂ) (x : ℕ → ℂ) (r : ℕ) :
@@ -267,5 +277,78 @@ theorem filterMX_adjoint (n M : ℕ) (P F : ℕ → ℕ → ℂ) (c : ℂ) (hc :
           conj (filterMX n M P F (starRingEnd ℂ) c⁻¹ (fmCtrX (starRingEnd ℂ) D) y a i) * x a i := by
   simp only [filterMX_eq, fmCtrX_eq]
   exact filterM_adjoint_aux n M P F c hc D x y
+
+/-! ## 6. Adjointness of `n`-D sums over index lists (`sumOverN`) -/
+
+theorem sumOverN_congr (ns : List ℕ) (F G : List ℕ → ℂ)
+    (h : ∀ idx, List.Forall₂ (fun i n => i < n) idx ns → F idx = G idx) :
+    sumOverN ns F = sumOverN ns G := by
+  induction ns generalizing F G with
+  | nil => exact h [] List.Forall₂.nil
+  | cons n ns ih =>
+    simp only [sumOverN, sumRange_eq]
+    apply Finset.sum_congr rfl
+    intro j hj
+    apply ih
+    intro idx hidx
+    exact h (j :: idx) (List.Forall₂.cons (Finset.mem_range.mp hj) hidx)
+
+theorem conj_sumOverN (ns : List ℕ) (F : List ℕ → ℂ) :
+    conj (sumOverN ns F) = sumOverN ns fun idx => conj (F idx) := by
+  induction ns generalizing F with
+  | nil => rfl
+  | cons n ns ih => simp only [sumOverN, sumRange_eq, map_sum, ih]
+
+theorem sumOverN_mul_left (ns : List ℕ) (F : List ℕ → ℂ) (c : ℂ) :
+    sumOverN ns (fun idx => c * F idx) = c * sumOverN ns F := by
+  rw [mul_comm, ← sumOverN_mul_right]
+  exact congrArg _ (funext fun idx => mul_comm _ _)
+
+theorem sumOverN_finset_sum {α : Type} (ns : List ℕ) (s : Finset α) (H : α → List ℕ → ℂ) :
+    sumOverN ns (fun js => ∑ k ∈ s, H k js) = ∑ k ∈ s, sumOverN ns (H k) := by
+  induction ns generalizing H with
+  | nil => rfl
+  | cons n ns ih =>
+    simp only [sumOverN, sumRange_eq, ih]
+    rw [Finset.sum_comm]
+
+/-- Fubini for sums over index lists -/
+theorem sumOverN_comm (ms ns : List ℕ) (G : List ℕ → List ℕ → ℂ) :
+    sumOverN ms (fun ks => sumOverN ns fun js => G ks js)
+      = sumOverN ns fun js => sumOverN ms fun ks => G ks js := by
+  induction ms generalizing G with
+  | nil => rfl
+  | cons m ms ih =>
+    simp only [sumOverN, sumRange_eq]
+    rw [sumOverN_finset_sum]
+    apply Finset.sum_congr rfl
+    intro k _
+    exact ih fun idx js => G (k :: idx) js
+
+/-- **Adjointness of `n`-D kernel sums**: index lists `ks` (shape `ms`) and `js` (shape `ns`), an
+arbitrary kernel `ph ks js`, real output weights. -/
+theorem adjoint_sumOverN (ms ns : List ℕ) (ph : List ℕ → List ℕ → ℂ) (win wout : List ℕ → ℂ)
+    (hwout : ∀ ks, conj (wout ks) = wout ks) (X Y : List ℕ → ℂ) :
+    sumOverN ms (fun ks => conj (Y ks) * (sumOverN ns fun js => X js * win js * ph ks js) * wout ks)
+      = sumOverN ns fun js =>
+          conj (sumOverN ms fun ks => Y ks * wout ks * conj (ph ks js)) * X js * win js := by
+  have hL : (fun ks => conj (Y ks) * (sumOverN ns fun js => X js * win js * ph ks js) * wout ks)
+      = fun ks => sumOverN ns fun js => conj (Y ks) * wout ks * ph ks js * X js * win js := by
+    funext ks
+    rw [← sumOverN_mul_left, ← sumOverN_mul_right]
+    exact congrArg _ (funext fun js => by ring)
+  have hR : (fun js => conj (sumOverN ms fun ks => Y ks * wout ks * conj (ph ks js)) * X js * win js)
+      = fun js => sumOverN ms fun ks => conj (Y ks) * wout ks * ph ks js * X js * win js := by
+    funext js
+    rw [conj_sumOverN, ← sumOverN_mul_right, ← sumOverN_mul_right]
+    refine congrArg _ (funext fun ks => ?_)
+    simp only [map_mul, Complex.conj_conj, hwout]
+  rw [hL, hR, sumOverN_comm]
+
+theorem conj_weightOutN_real (wo : Cfg ℝ ℂ → ℝ) (gs : List (Cfg ℝ ℂ)) :
+    conj (weightOutN (fun g => ((wo g : ℝ) : ℂ)) gs) = weightOutN (fun g => ((wo g : ℝ) : ℂ)) gs := by
+  induction gs with
+  | nil => simp [weightOutN]
+  | cons g gs ih => simp only [weightOutN, map_mul, Complex.conj_ofReal, ih]
 
 end HcipyVerif.Fft
